@@ -1173,4 +1173,206 @@ theorem subMixed_single_path (d : D Val) (p : List String) : subMixed d [Sum.inr
   cases subPath d p <;> rfl
 
 
+/-! ### round k2: `relabel` in every documented form (callable / prefix / suffix / dict / list of names / keywords) and the general
+collision statement (review v2 items 6 / clause table C16 `relabel`) -/
+section relabel_forms
+variable {V : Type}
+
+theorem lookup_append (k : String) : ∀ (xs ys : List (String × V)), lookup k (xs ++ ys) = (lookup k xs <|> lookup k ys)
+  | [], ys => by simp [lookup]
+  | (l, w) :: xs, ys => by
+      simp only [List.cons_append, lookup]
+      split
+      · simp
+      · exact lookup_append k xs ys
+
+theorem lookup_map_fn (g : String → String) (k : String) : ∀ (ks : List String),
+    lookup k (ks.map fun x => (x, g x)) = if k ∈ ks then some (g k) else none
+  | [] => by simp [lookup]
+  | x :: xs => by
+      simp only [List.map_cons, lookup, List.mem_cons]
+      by_cases h : k = x
+      · subst h; simp
+      · simp [h, lookup_map_fn g k xs]
+
+/-- the NEW name of key `k` under a relabelling map -/
+def newName (m : List (String × String)) (k : String) : String := (lookup k m).getD k
+
+/-- **the last colliding item wins** (general statement; `relabel_collision_loses` was one instance): under a name `k'` the
+result of ANY relabelling holds the value of the item of `d` at position `i` whenever that item is renamed to `k'` and no LATER
+item is.  Stated through the observation `lookup`, for all `d`, all maps, all positions. -/
+theorem relabel_collision_last_wins (d : D V) (m : List (String × String)) (k' : String) (i : Nat) (hi : i < d.items.length)
+    (hk : newName m d.items[i].1 = k')
+    (hlast : ∀ j, (hj : j < d.items.length) → i < j → newName m d.items[j].1 ≠ k') :
+    lookup k' (relabel d m).items = some d.items[i].2 := by
+  rw [relabel_lookup]
+  have key : ∀ (l : List (String × V)) (i : Nat) (hi : i < l.length), newName m l[i].1 = k' →
+      (∀ j, (hj : j < l.length) → i < j → newName m l[j].1 ≠ k') →
+      lookup k' (l.map fun kv => ((lookup kv.1 m).getD kv.1, kv.2)).reverse = some l[i].2 := by
+    intro l
+    induction l with
+    | nil => intro i hi; simp at hi
+    | cons x xs ih =>
+      intro i hi hk hlast
+      rw [List.map_cons, List.reverse_cons, lookup_append]
+      cases i with
+      | zero =>
+        have hnone : lookup k' (xs.map fun kv => ((lookup kv.1 m).getD kv.1, kv.2)).reverse = none := by
+          cases hl : lookup k' (xs.map fun kv => ((lookup kv.1 m).getD kv.1, kv.2)).reverse with
+          | none => rfl
+          | some v =>
+            exfalso
+            have hs : (lookup k' (xs.map fun kv => ((lookup kv.1 m).getD kv.1, kv.2)).reverse).isSome = true := by rw [hl]; rfl
+            rw [lookup_isSome_iff] at hs
+            simp only [List.map_reverse, List.mem_reverse, List.map_map, List.mem_map, Function.comp_def] at hs
+            obtain ⟨kv, hkv, hkv'⟩ := hs
+            obtain ⟨j, hj, rfl⟩ := List.getElem_of_mem hkv
+            exact hlast (j + 1) (by simp; omega) (by omega) (by simpa [newName] using hkv')
+        rw [hnone]
+        simp only [List.getElem_cons_zero] at hk ⊢
+        simp [lookup, newName] at hk ⊢
+        simp [hk]
+      | succ i =>
+        have hi' : i < xs.length := by simpa using hi
+        have := ih i hi' (by simpa using hk) (fun j hj hij => by
+          have := hlast (j + 1) (by simp; omega) (by omega)
+          simpa using this)
+        rw [this]; simp
+  exact key d.items i hi hk hlast
+
+
+/-- the new name of a key of `d` under each documented form of the positional argument (no keywords) -/
+theorem newName_fn (ks : List String) (f : String → String) (k : String) (hk : k ∈ ks) :
+    newName (relabelMap ks (.fn f) []) k = f k := by
+  simp [newName, relabelMap, lookup_map_fn, hk]
+
+theorem newName_prefix (ks : List String) (p k : String) (hk : k ∈ ks) (h1 : p.startsWith "_" = false)
+    (h2 : p.endsWith "_" = true) : newName (relabelMap ks (.affix p) []) k = p ++ k := by
+  simp [newName, relabelMap, affixMap, h1, h2, lookup_map_fn, hk]
+
+theorem newName_suffix (ks : List String) (p k : String) (hk : k ∈ ks) (h1 : p.startsWith "_" = true) :
+    newName (relabelMap ks (.affix p) []) k = k ++ p := by
+  simp [newName, relabelMap, affixMap, h1, lookup_map_fn, hk]
+
+/-- a string that neither starts nor ends with `_` relabels nothing -/
+theorem newName_plain_string (ks : List String) (p k : String) (h1 : p.startsWith "_" = false)
+    (h2 : p.endsWith "_" = false) : newName (relabelMap ks (.affix p) []) k = k := by
+  simp [newName, relabelMap, affixMap, h1, h2, lookup]
+
+/-- a keyword overrides whatever the positional argument says (`res.update(relabels)` runs last) -/
+theorem newName_kw (ks : List String) (arg : RelArg) (kw : List (String × String)) (k n : String)
+    (h : lookup k kw = some n) : newName (relabelMap ks arg kw) k = n := by
+  simp [newName, relabelMap, lookup_append, h]
+
+/-- ... and a key no keyword names is relabelled by the positional argument alone -/
+theorem newName_no_kw (ks : List String) (arg : RelArg) (kw : List (String × String)) (k : String)
+    (h : lookup k kw = none) : newName (relabelMap ks arg kw) k = newName (relabelMap ks arg []) k := by
+  simp [newName, relabelMap, lookup_append, h]
+
+/-- a dict argument is the keyword form -/
+theorem relabelA_dict (d : D V) (m : List (String × String)) : relabelA d (.dict m) [] = relabel d m := by
+  simp [relabelA, relabelMap]
+
+/-- **`relabel` in any form, collision-free: exactly the renamed keys, untouched values, same order, same class** - stated
+through `newName`, which the theorems above read off for a callable / prefix / suffix / keyword -/
+theorem relabelA_items (d : D V) (arg : RelArg) (kw : List (String × String))
+    (hn : ((keys d).map (newName (relabelMap (keys d) arg kw))).Nodup) :
+    (relabelA d arg kw).items = d.items.map (fun kv => (newName (relabelMap (keys d) arg kw) kv.1, kv.2)) ∧
+      (relabelA d arg kw).cls = d.cls :=
+  ⟨relabel_keys d _ hn, rfl⟩
+
+/-- `d.relabel(f)` for a callable that is injective on the keys of `d`: every item keeps its value and its place under `f key` -/
+theorem relabel_fn_items (d : D V) (f : String → String) (hd : (keys d).Nodup)
+    (hinj : ∀ a ∈ keys d, ∀ b ∈ keys d, f a = f b → a = b) :
+    (relabelA d (.fn f) []).items = d.items.map fun kv => (f kv.1, kv.2) := by
+  have hnn : ∀ k ∈ keys d, newName (relabelMap (keys d) (.fn f) []) k = f k := fun k hk => newName_fn _ f k hk
+  have hmap : (keys d).map (newName (relabelMap (keys d) (.fn f) [])) = (keys d).map f :=
+    List.map_congr_left hnn
+  have hn : ((keys d).map (newName (relabelMap (keys d) (.fn f) []))).Nodup := by
+    rw [hmap]
+    exact List.pairwise_map.2 (List.Pairwise.imp_of_mem (fun ha hb hab h => hab (hinj _ ha _ hb h)) hd)
+  rw [(relabelA_items d _ _ hn).1]
+  apply List.map_congr_left
+  intro kv hkv
+  rw [hnn kv.1 (List.mem_map.2 ⟨kv, hkv, rfl⟩)]
+
+/-- `d.relabel('p_')`: prefixing is injective, so nothing is ever lost -/
+theorem relabel_prefix_items (d : D V) (p : String) (hd : (keys d).Nodup) (h1 : p.startsWith "_" = false)
+    (h2 : p.endsWith "_" = true) :
+    (relabelA d (.affix p) []).items = d.items.map fun kv => (p ++ kv.1, kv.2) := by
+  have e : relabelA d (.affix p) [] = relabelA d (.fn (p ++ ·)) [] := by
+    simp [relabelA, relabelMap, affixMap, h1, h2]
+  rw [e]
+  exact relabel_fn_items d _ hd (fun a _ b _ h => by
+    have := congrArg String.toList h
+    simp only [String.toList_append] at this
+    exact String.ext (List.append_cancel_left this))
+
+/-- `d.relabel('_s')`: suffixing likewise -/
+theorem relabel_suffix_items (d : D V) (p : String) (hd : (keys d).Nodup) (h1 : p.startsWith "_" = true) :
+    (relabelA d (.affix p) []).items = d.items.map fun kv => (kv.1 ++ p, kv.2) := by
+  have e : relabelA d (.affix p) [] = relabelA d (.fn (· ++ p)) [] := by
+    simp [relabelA, relabelMap, affixMap, h1]
+  rw [e]
+  exact relabel_fn_items d _ hd (fun a _ b _ h => by
+    have := congrArg String.toList h
+    simp only [String.toList_append] at this
+    exact String.ext (List.append_cancel_right this))
+
+/-- a CONSTANT callable collapses `d` to one key holding the value of the LAST item (review v2: `d.relabel(lambda k: 'z')`) -/
+theorem relabel_fn_const (d : D V) (c : String) (hne : d.items ≠ []) :
+    keys (relabelA d (.fn fun _ => c) []) = [c] ∧
+      lookup c (relabelA d (.fn fun _ => c) []).items = (d.items.getLast hne |>.2) := by
+  have hnn : ∀ k ∈ keys d, newName (relabelMap (keys d) (.fn fun _ => c) []) k = c := fun k hk => newName_fn _ _ k hk
+  have hlen : 0 < d.items.length := List.length_pos_iff.2 hne
+  constructor
+  · -- every key of the result is `c`, the result has distinct keys and is not empty
+    have hone : ∀ (pairs base : List (String × V)), (∀ kv ∈ pairs, kv.1 = c) → base.map (·.1) = [c] →
+        (setAll base pairs).map (·.1) = [c] := by
+      intro pairs
+      induction pairs with
+      | nil => intro base _ hb; simpa [setAll] using hb
+      | cons q qs ih =>
+        intro base hq hb
+        have e : setAll base (q :: qs) = setAll (set q.1 q.2 base) qs := by simp [setAll]
+        rw [e]
+        apply ih _ (fun kv hkv => hq kv (List.mem_cons_of_mem _ hkv))
+        match base, hb with
+        | [(l, w)], hb =>
+          have hl : l = c := by simpa using hb
+          have hq1 : q.1 = c := hq q (List.mem_cons_self)
+          simp [DA.set, hl, hq1]
+    have hitems : (relabelA d (.fn fun _ => c) []).items = setAll [] (d.items.map fun kv => (c, kv.2)) := by
+      simp only [relabelA, relabel]
+      congr 1
+      apply List.map_congr_left
+      intro kv hkv
+      have := hnn kv.1 (List.mem_map.2 ⟨kv, hkv, rfl⟩)
+      simp only [newName] at this
+      rw [this]
+    simp only [keys, hitems]
+    match hd : d.items, hne with
+    | x :: xs, _ =>
+      have e : setAll [] ((x :: xs).map fun kv => (c, kv.2)) = setAll [(c, x.2)] (xs.map fun kv => (c, kv.2)) := by
+        simp [setAll, DA.set]
+      rw [e]
+      exact hone _ _ (fun kv hkv => by obtain ⟨a, _, rfl⟩ := List.mem_map.1 hkv; rfl) rfl
+  · have := relabel_collision_last_wins d (relabelMap (keys d) (.fn fun _ => c) []) c (d.items.length - 1) (by omega)
+      (hnn _ (List.mem_map.2 ⟨_, List.getElem_mem _, rfl⟩)) (fun j hj hij => by omega)
+    rw [relabelA, this, List.getLast_eq_getElem]
+
+#guard (relabelA (⟨2, [("a", 1), ("b", 2)]⟩ : D Nat) (.affix "x_") []).items == [("x_a", 1), ("x_b", 2)]
+#guard (relabelA (⟨2, [("a", 1), ("b", 2)]⟩ : D Nat) (.affix "_x") []).items == [("a_x", 1), ("b_x", 2)]
+#guard (relabelA (⟨2, [("a", 1), ("b", 2)]⟩ : D Nat) (.affix "x") []).items == [("a", 1), ("b", 2)]
+#guard (relabelA (⟨2, [("a", 1), ("b", 2)]⟩ : D Nat) (.fn fun k => k ++ k) [("b", "other")]).items == [("aa", 1), ("other", 2)]
+#guard (relabelA (⟨2, [("a", 1), ("b", 2), ("c", 3)]⟩ : D Nat) (.names ["A", "B", "C"]) []).items == [("A", 1), ("B", 2), ("C", 3)]
+#guard (relabelA (⟨2, [("a", 1), ("b", 2), ("c", 3)]⟩ : D Nat) (.names ["A", "B"]) []).items == [("a", 1), ("b", 2), ("c", 3)]
+#guard (relabelA (⟨2, [("a", 1), ("b", 2), ("c", 3)]⟩ : D Nat) (.fn fun _ => "z") []).items == [("z", 3)]
+#guard (relabelA (⟨2, [("a", 1), ("b", 2), ("c", 3)]⟩ : D Nat) (.dict [("a", "b")]) []).items == [("b", 2), ("c", 3)]
+/-- the hypotheses of `relabel_collision_last_wins` on `dictattr(a=1, b=2, c=3).relabel(a='c')`: position 2 is the last item named `c` -/
+example : lookup "c" (relabel (⟨2, [("a", (1 : Nat)), ("b", 2), ("c", 3)]⟩ : D Nat) [("a", "c")]).items = some 3 :=
+  relabel_collision_last_wins _ _ "c" 2 (by decide) (by decide) (fun j hj hij => by simp at hj; omega)
+
+end relabel_forms
+
 end Pyg.Props.C16
